@@ -7,7 +7,8 @@ args = sys.argv[1:]
 j = 2
 if args[:1] == ['-j']:
     j = int(args[1]); args = args[2:]
-ids = args or sorted(os.listdir(os.path.join(HERE, 'benign')))
+ids = args or sorted(b for b in os.listdir(os.path.join(HERE, 'benign'))
+                     if not json.load(open(os.path.join(HERE, 'benign', b, 'meta.json'))).get('retired'))
 def one(bid):
     r = subprocess.run([sys.executable, os.path.join(HERE, 'tools', 'benigntest.py'), os.path.join(HERE, 'benign', bid, 'patch.diff'), '--cases', '250', '-j', '3'], capture_output=True, text=True)
     try:
